@@ -2,8 +2,11 @@ package checks
 
 import (
 	"fmt"
-	"github.com/opsidian/parsley/parsley"
+	"math/rand"
 	"sort"
+	"strings"
+
+	"github.com/opsidian/parsley/parsley"
 
 	"verifharness/internal/gram"
 	"verifharness/internal/refsem"
@@ -206,6 +209,81 @@ func famClass(f string) string {
 	return f
 }
 
+// c01longCase: left-recursive grammars whose derivations are known in closed form, on inputs of 1000+ bytes
+// (the reference fixpoint is cubic in the input length and only practical for short inputs): the memoized
+// nonterminal must return exactly the expected end positions, one tree per end.
+func c01longCase(j run.Job, a *run.Acc) {
+	r := rand.New(rand.NewSource(j.Seed))
+	for it := 0; it < j.N; it++ {
+		k := 1020 + r.Intn(j.Param("span", 700))
+		shape := r.Intn(3)
+		if !a.Begin() {
+			continue
+		}
+		g := gram.New("abcx", 1)
+		var in string
+		var want []int
+		switch shape {
+		case 0: // P -> P b | a
+			g.NTs[0] = g.Mk(gram.OpAny, g.Mk(gram.OpSeqOf, g.Ref(0), g.Rune('b')), g.Rune('a'))
+			in = "a" + strings.Repeat("b", k)
+			for e := 1; e <= k+1; e++ {
+				want = append(want, e)
+			}
+		case 1: // L -> L c a | a
+			g.NTs[0] = g.Mk(gram.OpAny, g.Mk(gram.OpSeqOf, g.Ref(0), g.Rune('c'), g.Rune('a')), g.Rune('a'))
+			in = "a" + strings.Repeat("ca", k/2)
+			for e := 1; e <= len(in); e += 2 {
+				want = append(want, e)
+			}
+		default: // hidden: P -> x? P b | a, prefix absent
+			g.NTs[0] = g.Mk(gram.OpAny, g.Mk(gram.OpSeqOf, g.Mk(gram.OpOpt, g.Rune('x')), g.Ref(0), g.Rune('b')), g.Rune('a'))
+			in = "a" + strings.Repeat("b", k)
+			for e := 1; e <= k+1; e++ {
+				want = append(want, e)
+			}
+		}
+		c := GCase{G: g, In: in, Fam: "long-closed-form"}
+		env := gram.NewEnvAt(in, c.Before())
+		b := gram.Build(g, nil) // no probes: their frames would only add to the (legitimately deep) recursion
+		o := gram.Run(env, b.NTs[0], 0)
+		a.Count("cases", 1)
+		a.Count("long closed-form cases (1000+ bytes)", 1)
+		d := map[string]any{"grammar": g.String(), "input_length": len(in), "input_prefix": in[:12]}
+		if o.Panic != "" {
+			d["panic"] = o.Panic
+			a.Violate("panic", "panic", d)
+			continue
+		}
+		a.Count("judged", 1)
+		var got []int
+		seen := map[int]bool{}
+		for _, alt := range gram.Alternatives(o.Node) {
+			e := int(alt.ReaderPos()) - env.Base
+			if seen[e] {
+				d["duplicate_end"] = e
+			}
+			seen[e] = true
+			got = append(got, e)
+		}
+		sort.Ints(got)
+		if !sameInts(got, want) {
+			d["ends_returned"] = len(got)
+			d["ends_expected"] = len(want)
+			if len(got) > 0 {
+				d["largest_end_returned"] = got[len(got)-1]
+			}
+			d["largest_end_expected"] = want[len(want)-1]
+			a.Violate("ends-mismatch", "ends-mismatch", d)
+			continue
+		}
+		a.NonTrivial(fmt.Sprintf("long/%d/%d", shape, k))
+		a.Count("nontrivial", 1)
+		a.SetMax("input length", int64(len(in)))
+		a.Sample("long-closed-form", d)
+	}
+}
+
 func c01plan(tier string, seed int64) []run.Job {
 	var jobs []run.Job
 	jobs = append(jobs, run.Job{Family: "corpus"})
@@ -221,6 +299,13 @@ func c01plan(tier string, seed int64) []run.Job {
 		jobs = append(jobs, run.Job{Family: "random", Seed: seed*100000 + int64(i), N: per, P: map[string]int{"strat": 1, "maxlen": 8, "inputs": 6}})
 		jobs = append(jobs, run.Job{Family: "layered", Seed: seed*100000 + 80000 + int64(i), N: per / 2, P: map[string]int{"inputs": 6}})
 		jobs = append(jobs, run.Job{Family: "mutual", Seed: seed*100000 + 50000 + int64(i), N: per, P: map[string]int{"inputs": 6, "maxlen": 10}})
+	}
+	nlong := 2
+	if tier == "thorough" {
+		nlong = 12
+	}
+	for i := 0; i < 4; i++ {
+		jobs = append(jobs, run.Job{Family: "long-closed-form", Seed: seed*100000 + 95000 + int64(i), N: nlong, P: map[string]int{"span": 700}})
 	}
 	jobs = append(jobs, enumJobs(maxNodes, false, 4, 400)...)
 	extNodes := 4
@@ -243,6 +328,10 @@ func init() {
 		Title: "Parse results equal the grammar's derivations, including left recursion",
 		Plan:  c01plan,
 		Exec: func(j run.Job, a *run.Acc) {
+			if j.Family == "long-closed-form" {
+				c01longCase(j, a)
+				return
+			}
 			gramCases(j, func(c GCase) { c01case(c, a) })
 		},
 		Finish: func(tier string, a *run.Acc, cov map[string]any) string {
